@@ -47,12 +47,14 @@ PROPS["C11"] = {
     ],
     "trusted_base": [],
     "manifest": {
-        "text": "Bounded model checking (Kani/CBMC) of the real boa_string code: for all code-unit sequences up to the stated "
-                "length over the full 8/16-bit alphabets and for both internal representations, Eq/Ord/Hash, comparison with "
-                "Rust str and the JsStr/JsString operations equal a plain [u16] model. The solver decides the whole input "
-                "space inside the bound, which is where representation-dependent defects (byte >= 0x80, length mismatch) live.",
-        "note": "Bound: strings <= 3 code units quick (<= 5 thorough). Trusted: Kani MIR->goto translation, CBMC+CaDiCaL, the "
-                "get_string->None stub for JsString harnesses. Outside: longer strings, JS-level String builtins.",
+        "text": "Bounded model checking (Kani/CBMC) of the real boa_string code against a plain [u16] model, over the full 8/16-bit "
+                "alphabets and both internal representations: Eq/Ord/Hash and `== str` for all strings of <= 3 units (5 thorough); "
+                "index_of/starts_with/ends_with for every representation pair (lengths, start index and pair enumerated per harness, "
+                "contents symbolic); get/ranges/code_point_at/contains/to_vec/iter; on the heap layer JsString::slice for ALL usize "
+                "ranges (clamping makes slice_unchecked safe) and mixed-encoding concat. The solver decides the whole input space "
+                "inside each bound, which is where representation-dependent defects (byte >= 0x80, length mismatch, prefix cases) live.",
+        "note": "Bound: strings <= 3 code units (search: haystack 3 / needle <= 2). Trusted: Kani MIR->goto translation, CBMC+CaDiCaL, the "
+                "get_string->None stub for JsString harnesses. Outside: longer strings, builders, trim/to_std_string/to_number, JS-level String builtins.",
         "technique": "bounded model checking of the compiled Rust (Kani/CBMC, SAT), differential vs [u16] reference model",
         "design_ref": "DESIGN.md §4 C11",
     },
@@ -131,7 +133,7 @@ PROPS["C01"] = {
                 "call (value/operations.rs fast paths, ToInt32/ToUint32, Number::equal/sameValue/sameValueZero/lessThan): for ALL int32 "
                 "pairs and ALL double bit patterns each operator returns what ECMAScript Number::op specifies (exact integer model, "
                 "-0 and overflow side conditions, IEEE relations as integer comparisons of bit patterns) and never panics "
-                "(this is where `-2147483648 % -1` lives). The program-level quantifier of C01 is NOT decided.",
+                "(this is where `-2147483648 % -1` lives); plus JsValue::neg for all Numbers. The program-level quantifier of C01 is NOT decided.",
         "note": "Trusted: Kani/CBMC incl. its float theory, the integer reference model. Outside: everything above the operator kernels "
                 "(parser, compiler, VM control flow, coercions of non-Number operands).",
         "technique": "bounded model checking of the compiled Rust (Kani/CBMC, SAT) over full int32^2 / double domains vs integer-domain spec model",
@@ -232,9 +234,9 @@ PROPS["C13"] = {
     "manifest": {
         "text": "Kernel-level claim. Bounded model checking of the integer text->Number kernels: parseInt's digit accumulation "
                 "(from_js_str_radix) for ALL radices 2..36 on all ASCII strings up to 4 characters (accept/reject and exact value), at the "
-                "16-digit overflow boundary of its exact path for radix 10 and 16, and on the floating-point accumulation path beyond 2^53 "
-                "(radix 32, 12 digits; radix 10, 17 digits in the thorough tier) against exact 128-bit integer arithmetic followed by one "
-                "correctly rounded conversion; plus ToInt32 for all 2^64 doubles. The formatting direction is NOT decided.",
+                "16-digit overflow boundary of its exact path for radix 10 and 16, and beyond 2^53 / beyond 64 bits (radix 32 with 12 and 22 digits, "
+                "radix 16 with 27, radix 10 with 20; more in the thorough tier) against exact 128-bit integer arithmetic followed by one "
+                "correctly rounded conversion; plus ToInt32 for all 2^64 doubles. The formatting direction and StringToNumber are NOT decided.",
         "note": "Trusted: Kani/CBMC float theory, Rust integer->float conversion. Outside: ryu-js, fast-float2, toFixed/toPrecision/"
                 "toExponential, toString(radix).",
         "technique": "bounded model checking of the compiled Rust (Kani/CBMC, SAT) vs exact 128-bit integer model",
